@@ -103,3 +103,49 @@ Theorem content_ok_example :
 Proof.
   split; [vm_compute; reflexivity|]. eexists. repeat split; vm_compute; reflexivity.
 Qed.
+
+(* ---------- the pinned code (Model/EditV0.v): the four repaired delete_object defects, one witness ---------- *)
+From LV Require Import Model.EditV0 Spec.RenumberSpec.
+
+Definition K_Arr := Eval cbv in bs "Arr".
+Definition K_S := Eval cbv in bs "S".
+Definition K_X := Eval cbv in bs "X".
+Definition K_Via := Eval cbv in bs "Via".
+Definition K_Extra := Eval cbv in bs "Extra".
+
+(* 5 0 R occurs twice in an array, in the trailer, in a stream dictionary, and object 4 is nothing but 5 0 R *)
+Definition ex_del : doc :=
+  {| d_version := bs "1.5"; d_binary_mark := [];
+     d_trailer := [(K_Root, ORef 1 0); (K_Extra, ORef 5 0)];
+     d_objects :=
+       [((1, 0), ODict [(K_Type, OName K_Catalog); (K_Arr, OArr [ORef 5 0; OInt 1; ORef 5 0]); (K_S, ORef 3 0); (K_Via, ORef 4 0)]);
+        ((3, 0), OStream [(K_X, ORef 5 0); (K_Length, OInt 0)] []);
+        ((4, 0), ORef 5 0);
+        ((5, 0), ODict [(K_Type, OName K_Font)])]%N;
+     d_max_id := 5 |}.
+
+Theorem delete_v0_refuted :
+  exists d' r, delete_object_v0 ex_del (5, 0)%N = Some (d', r) /\
+    In (5, 0)%N (refs_of_dict (d_trailer d')) /\
+    (exists o, lookup (d_objects d') (1, 0)%N = Some o /\ In (5, 0)%N (refs_of o)) /\
+    (exists o, lookup (d_objects d') (3, 0)%N = Some o /\ In (5, 0)%N (refs_of o)) /\
+    (exists o, lookup (d_objects d') (4, 0)%N = Some o /\ In (5, 0)%N (refs_of o)) /\
+    lookup (d_objects d') (5, 0)%N = None.
+Proof.
+  eexists. eexists. split; [vm_compute; reflexivity|].
+  split; [vm_compute; tauto|].
+  split; [eexists; split; [vm_compute; reflexivity | vm_compute; tauto]|].
+  split; [eexists; split; [vm_compute; reflexivity | vm_compute; tauto]|].
+  split; [eexists; split; [vm_compute; reflexivity | vm_compute; tauto]|].
+  vm_compute. reflexivity.
+Qed.
+
+(* the repaired code on the same document: nothing is left *)
+Theorem delete_v1_same_document :
+  exists d' r, delete_object ex_del (5, 0)%N = Some (d', r) /\
+    refs_of_dict (d_trailer d') = [(1, 0)%N] /\
+    lookup (d_objects d') (1, 0)%N =
+      Some (ODict [(K_Type, OName K_Catalog); (K_Arr, OArr [OInt 1]); (K_S, ORef 3 0); (K_Via, ORef 4 0)]) /\
+    lookup (d_objects d') (3, 0)%N = Some (OStream [(K_Length, OInt 0)] []) /\
+    lookup (d_objects d') (4, 0)%N = Some ONull.
+Proof. eexists. eexists. repeat split; vm_compute; reflexivity. Qed.
